@@ -111,6 +111,9 @@ impl JsonParserError {
     #[verifier::external_body]
     pub fn can_recover(&self) -> (r: bool) ensures r == !is_io_error(*self) { unimplemented!() }
 }
+pub ghost enum Njv { Val(JsonValue), End, Bad }
+pub open spec fn njv_abs(r: Result<Option<JsonValue>>) -> Njv { match r { Ok(Some(v)) => Njv::Val(v), Ok(None) => Njv::End, Err(_) => Njv::Bad } }
+pub uninterp spec fn njv_fn(p: Seq<Option<u8>>) -> (Njv, Seq<Option<u8>>);
 pub ghost struct RView { pub pending: Seq<Option<u8>>, pub cur: Option<u8>, pub ok: bool, pub name: Option<String> }
 pub open spec fn rview<R: Read>(r: &Reader<R>) -> RView { RView { pending: r.pending(), cur: r.cur(), ok: r.wf() && r.room(), name: r.name() } }
 // the part of next_json_value's contract (unit LEX, trait JsonParser) the read loop relies on — ASSUMED here, same clauses
@@ -130,7 +133,10 @@ pub trait JsonParser {
                    Some((v, n)) => r->Ok_0->0 == v && 0 < n <= p.len() && final(self).rv().pending =~= from(p, n),
                    None => false }) }),
             !is_io(r) && pvs(old(self).rv().pending) ==> r is Ok && r->Ok_0 is Some,
-            !is_io(r) && ws_run(old(self).rv().pending) == old(self).rv().pending.len() ==> r is Ok && r->Ok_0 is None;
+            !is_io(r) && ws_run(old(self).rv().pending) == old(self).rv().pending.len() ==> r is Ok && r->Ok_0 is None,
+            // the parser is deterministic: value / end / error and what is left pending are a FUNCTION of the pending bytes
+            // (assumed; used only by the `parse` function below, whose result must be a function of its argument)
+            njv_abs(r) == njv_fn(old(self).rv().pending).0 && final(self).rv().pending == njv_fn(old(self).rv().pending).1;
 }
 impl<R: Read> JsonParser for Reader<R> {
     open spec fn rv(&self) -> RView { rview(self) }
@@ -284,6 +290,47 @@ impl<S: Read> Master<S> {
                                 assert(fed_post(old(process), process, fed));
                             }
 //@@ endfn
+}
+
+// ---- the `parse` function (src/functions/string/parse_and_stringify/parse.rs): the text must hold exactly one JSON value ----
+//@@ include prelude/fnargs_apply.rs
+pub mod vps {
+use vstd::prelude::*;
+use super::*;
+pub open spec fn text_pending(t: Seq<char>) -> Seq<Option<u8>> { Seq::new(str_bytes(t).len(), |i: int| Some(str_bytes(t)[i])) }
+// src/reader.rs: from_string (verified in unit EXPR: EXPR.from_string) — a reader over the bytes of the text, nothing read yet
+#[verifier::external_body]
+pub fn from_string<'a>(source: &'a String) -> (r: Reader<&'a [u8]>)
+    ensures r.wf(), r.room(), r.cur() is None, r.pending() =~= text_pending(source@),
+{ unimplemented!() }
+// one value, then nothing but white space
+pub open spec fn parse_text(t: Seq<char>) -> Option<JsonValue> {
+    let a = jp::njv_fn(text_pending(t));
+    match a.0 { jp::Njv::Val(v) => match jp::njv_fn(a.1).0 { jp::Njv::End => Some(v), _ => None }, _ => None }
+}
+}
+use vps::*;
+pub mod f_parse {
+use super::*;
+//@@ item src/functions/string/parse_and_stringify/parse.rs :: fn get :: struct Impl
+//@@ rewrite pub_tuple pub_struct
+//@@ enditem
+impl Get for Impl {
+    open spec fn get_spec(&self, value: &Context) -> Option<JsonValue> {
+        match arg(self.0@, value, 0) { Some(JsonValue::String(s)) => parse_text(s@), _ => None }
+    }
+//@@ fn f.parse = src/functions/string/parse_and_stringify/parse.rs :: fn get :: impl Get for Impl :: fn get
+//@@ safety C04 C05 C02
+//@@ ret r
+//@@ post doc "(parse s) is the value the JSON parser reads from the text s, provided the text holds exactly one value followed by nothing but white space; nothing otherwise (not a string, no value, a malformed value, or anything after the value)"
+//@@ header
+        ensures
+            // ... and that value is the one the RFC 8259 spec parser pv assigns to the text (contract of next_json_value, unit LEX)
+            r is Some ==> (match arg(self.0@, value, 0) { Some(JsonValue::String(s)) => (match pv(text_pending(s@)) {
+                Some((v, n)) => r == Some(v) && ws_run(from(text_pending(s@), n)) == from(text_pending(s@), n).len(),
+                None => false }), _ => false }), // @obl LOOP.parse.value : C04 C02
+//@@ endfn
+}
 }
 
 } // verus!
